@@ -26,7 +26,7 @@ pub enum Diff {
     Discard(String),
     Fail(String),
     /// agreement: the model run and the source text
-    Agree { model: Run, src: String, digest: u64 },
+    Agree { model: Run, src: String, digest: u64, tree_differs: bool },
 }
 
 pub fn differential(prog: &Program, o: &DiffOpts) -> Diff {
@@ -57,50 +57,59 @@ pub fn differential(prog: &Program, o: &DiffOpts) -> Diff {
         Caught::Panic(p) => return Diff::Discard(format!("render_mismatch:parse_panic:{}", p)),
         Caught::Budget(_) => return Diff::Discard("render_mismatch:parse_fuel".into()),
     };
-    if &crate::adapt::program(&tree) != prog {
+    // A parsed tree that differs from the generated one is C02's subject as such; here the program is run all the
+    // same and judged by its behaviour: a mis-parse that changes what the text does violates this property too.
+    let tree_differs = &crate::adapt::program(&tree) != prog;
+    let note = if tree_differs {
         if std::env::var_os("VCHECK_DEBUG_MISMATCH").is_some() {
             eprintln!("MISMATCH {}\n{}", crate::props::c02::first_difference(prog, &crate::adapt::program(&tree)), src);
         }
-        return Diff::Discard("render_mismatch:tree".into());
-    }
+        format!("\n--- note: the parser's tree differs from the tree this text was rendered from: {}", crate::props::c02::first_difference(prog, &crate::adapt::program(&tree)))
+    } else {
+        String::new()
+    };
     let lim = RLimits { exec_fuel: Some(10 * m.steps + 100), alloc_cap: Some(4_000_000) };
     let (caught, out) = exec_rrss(&tree, o.stdin.as_bytes(), lim);
     let got = out.stdout_str();
     match caught {
         Caught::Panic(p) => {
-            return Diff::Fail(format!("rrss panicked: {}\n--- stdout so far: {:?}\n--- program:\n{}", p, got, src));
+            return Diff::Fail(format!("rrss panicked: {}\n--- stdout so far: {:?}\n--- program:\n{}{}", p, got, src, note));
         }
         Caught::Budget(b) => {
             return Diff::Fail(format!(
-                "rrss exceeded the resource bound derived from the reference run ({}; reference took {} loop iterations + calls)\n--- program:\n{}",
-                b, m.steps, src
+                "rrss exceeded the resource bound derived from the reference run ({}; reference took {} loop iterations + calls)\n--- program:\n{}{}",
+                b, m.steps, src, note
             ));
         }
         Caught::Done(()) => {}
     }
     if got != m.out {
         return Diff::Fail(format!(
-            "output differs from the reference\n--- expected: {:?}\n--- rrss:     {:?}\n--- reference result: {:?}, rrss result: {:?}\n--- program:\n{}",
-            m.out, got, m.result, out.err, src
+            "output differs from the reference\n--- expected: {:?}\n--- rrss:     {:?}\n--- reference result: {:?}, rrss result: {:?}\n--- program:\n{}{}",
+            m.out, got, m.result, out.err, src, note
         ));
     }
     if out.ok() != m.result.is_ok() {
         return Diff::Fail(format!(
-            "outcome differs from the reference: reference {:?}, rrss {:?}\n--- output: {:?}\n--- program:\n{}",
-            m.result, out.err, got, src
+            "outcome differs from the reference: reference {:?}, rrss {:?}\n--- output: {:?}\n--- program:\n{}{}",
+            m.result, out.err, got, src, note
         ));
     }
     let digest = fnv_str(&got) ^ fnv_str(&format!("{:?}", out.err));
-    Diff::Agree { model: m, src, digest }
+    Diff::Agree { model: m, src, digest, tree_differs }
 }
 
 pub fn to_outcome(d: Diff) -> Result<(Run, String, Outcome), Outcome> {
     match d {
         Diff::Discard(w) => Err(Outcome::discard(w)),
         Diff::Fail(m) => Err(Outcome::fail(m)),
-        Diff::Agree { model, src, digest } => {
+        Diff::Agree { model, src, digest, tree_differs } => {
             let mut o = Outcome::pass();
             o.digest = digest;
+            if tree_differs {
+                // must stay 0 on the unchanged tree (C02 reports the mismatch itself)
+                o.labels.push("parsed_tree_differs_but_behaviour_agrees".into());
+            }
             Ok((model, src, o))
         }
     }
